@@ -57,13 +57,16 @@ def gen_score(rng, junk=False):
 
 def gen_feedback(rng, junk=False):
     ctor = rng.choice(['Feedback'] * 6 + ['neg'] * 4 + ['runtime_like', 'compliment', 'set_correct', 'give_partial',
-                                                        'gently', 'explain', 'guidance'])
+                                                        'gently', 'explain', 'guidance', 'muted_default', 'unscored_default'])
     kw = {}
     if ctor in ('compliment', 'gently', 'explain', 'guidance'):
         kw['message'] = 'msg %d' % rng.randrange(100) if rng.random() < 0.85 else ''
     if ctor == 'give_partial':
         kw['_pos'] = [gen_score(rng)]
     r = rng.random
+    if ctor in ('muted_default', 'unscored_default', 'give_partial') and r() < 0.6:
+        # a class that is muted / unscored by default, and a call that says otherwise
+        kw['muted' if ctor != 'unscored_default' else 'unscored'] = rng.choice([False, False, True])
     if ctor in ('Feedback', 'neg', 'runtime_like') or r() < 0.3:
         if r() < (0.85 if ctor == 'Feedback' else 0.3):
             kw['category'] = mixcase(rng, rng.choice(CATS))
@@ -75,9 +78,9 @@ def gen_feedback(rng, junk=False):
                                                   'uncategorized', 'style']))
     if r() < 0.2:
         kw['kind'] = rng.choice(['Compliment', 'Instructional', 'Mistake', 'Hint', 'Result'])
-    if r() < 0.2:
+    if r() < 0.2 and 'muted' not in kw:
         kw['muted'] = rng.choice([True, False])
-    if r() < 0.15:
+    if r() < 0.15 and 'unscored' not in kw:
         kw['unscored'] = rng.choice([True, False])
     if r() < 0.35 and ctor not in ('give_partial',):
         kw['activate'] = False
@@ -294,6 +297,14 @@ def oracle(pid, case, out):
     elig = [x for x in snaps if shown(x, calls) and x['has_message']]
     vis = [x for x in snaps if shown(x, calls)]
     if pid == 'C01':
+        # what the call asked for is what takes part in the resolution (an explicit False beats a class default)
+        for x in snaps:
+            if 'spec' in x and 'class_muted' in x:
+                kwargs = case['feedbacks'][x['spec']]['kwargs']
+                for flag in ('muted', 'unscored'):
+                    if kwargs.get(flag) is not None and x[flag] != bool(kwargs[flag]):
+                        return ('flag-not-honoured:' + flag, 'feedback %d was created with %s=%r (class default %r) but takes part as %s=%r'
+                                % (x['id'], flag, kwargs[flag], x['class_' + flag], flag, x[flag]))
         if s['used'] is None:
             if elig:
                 return ('default-despite-eligible', 'default result although feedback %s is eligible' % [x['id'] for x in elig])
